@@ -345,6 +345,15 @@ func (tl *loader) load(keys ...string) {
 		go func(key string) {
 			defer sem.Release(1)
 			defer wg.Done()
+			defer func() {
+				// Reading a corrupt shard can panic (the reader indexes into
+				// tables it has just read from the file); that must fail this
+				// shard, not the whole server.
+				if r := recover(); r != nil {
+					metricShardsLoadFailedTotal.Inc()
+					log.Printf("[ERROR] reloading: %s, panic %v", key, r)
+				}
+			}()
 
 			shard, err := loadShard(key)
 			if err != nil {
